@@ -42,6 +42,10 @@ class AbstractSourceSinkGraph(nx.DiGraph):
         if not all(isinstance(node, str) for node in base_graph.nodes()):
             utils.logger.error(f"{__name__}: Every node of the graph must be a string.")
             raise ValueError("Every node of the graph must be a string.")
+        if base_graph.is_multigraph():
+            # (a MultiDiGraph is an instance of DiGraph; copied into this simple digraph its parallel edges would silently collapse into one)
+            utils.logger.error(f"{__name__}: The graph must be a networkx DiGraph, not a MultiDiGraph (parallel edges are not supported).")
+            raise ValueError("The graph must be a networkx DiGraph, not a MultiDiGraph (parallel edges are not supported).")
 
         super().__init__()
         self.base_graph = base_graph
